@@ -49,6 +49,97 @@ def check(run, prog, tier):
     run.rule("C20-G", "sums are taken exactly where the work was divided: the reductions act under the same condition under which "
                       "the helpers hand out blocks (parallel_level == 1) and pass through everywhere else", minimum=2)
     rule_G(run, prog)
+    run.rule("C20-H", "every item collected from another process is received into an array of its own: the buffer of a receive in a "
+                      "loop is allocated in the same pass of the loop when it is handed on (a setter that keeps the array by reference "
+                      "would otherwise keep one array for all items of a process)", minimum=1)
+    rule_H(run, prog)
+
+
+_FRESH_CTORS = ("zeros", "empty", "ones", "zeros_like", "empty_like", "ones_like", "full", "array", "copy", "ndarray")
+
+
+def rule_H(run, prog):
+    """'... so that sum-reduced results equal the serial result': the results of the blocks are put together by
+    collect_block_distributed_data, item by item.  For every `comm.Recv(X, ...)` inside a loop whose buffer X is also
+    handed to another call in the same loop: every assignment of X in the loop is a fresh allocation, or the name of one
+    that is allocated in the loop unconditionally (not `if buffer is None: buffer = zeros(...)`, which is one array per
+    outer pass)."""
+    from ..loader import parents_map
+    rid = "C20-H"
+    n = 0
+    prog.module(PAR[:-1])
+    for f in list(prog.all_functions()):
+        if f.module.name != PAR[:-1] or not hasattr(f.node, "args"):
+            continue
+        pm = parents_map(f.node)
+
+        def fresh_call(v):
+            return isinstance(v, ast.Call) and (call_name(v) or "").split(".")[-1] in _FRESH_CTORS
+
+        for c in walk_no_nested(f.node):
+            if not (isinstance(c, ast.Call) and isinstance(c.func, ast.Attribute) and c.func.attr == "Recv" and c.args
+                    and isinstance(c.args[0], ast.Name)):
+                continue
+            L = pm.get(c)
+            while L is not None and not isinstance(L, (ast.For, ast.While)):
+                L = pm.get(L)
+            if L is None:
+                continue
+            X = c.args[0].id
+            handed = [k for k in ast.walk(L) if isinstance(k, ast.Call) and k is not c
+                      and any(isinstance(a_, ast.Name) and a_.id == X for a_ in k.args)
+                      and not (isinstance(k.func, ast.Attribute) and k.func.attr in ("Recv", "Send"))]
+            if not handed:
+                continue
+            n += 1
+            prog.consulted.add(f.relpath)
+
+            def assigns(name):
+                return [a_ for a_ in ast.walk(L) if isinstance(a_, ast.Assign) and any(isinstance(t_, ast.Name) and t_.id == name
+                                                                                         for t_ in a_.targets)]
+
+            def guarded_by_itself(a_, name):
+                g = pm.get(a_)
+                while g is not None and g is not L:
+                    if isinstance(g, ast.If) and any(isinstance(x_, ast.Name) and x_.id == name for x_ in ast.walk(g.test)):
+                        return True
+                    g = pm.get(g)
+                return False
+
+            why = ""
+            # the assignment that reaches the receive: the last one before it in the same block, else all in the loop
+            blk = None
+            p_ = pm.get(c)
+            while p_ is not None and not isinstance(p_, ast.stmt):
+                p_ = pm.get(p_)
+            for fld in ("body", "orelse"):
+                b_ = getattr(pm.get(p_), fld, None)
+                if isinstance(b_, list) and p_ in b_:
+                    blk = b_[:b_.index(p_)]
+            reach = [a_ for a_ in (blk or []) if a_ in assigns(X)][-1:] or assigns(X)
+            if not reach:
+                why = "`%s` is allocated outside the loop" % X
+            for a_ in reach:
+                v = a_.value
+                if fresh_call(v):
+                    continue
+                if isinstance(v, ast.Name):
+                    ys = assigns(v.id)
+                    if not ys:
+                        why = "`%s` is `%s`, which is allocated outside the loop" % (X, v.id)
+                    elif not all(fresh_call(y.value) for y in ys):
+                        why = "`%s` is `%s`, which is not a fresh array in every pass" % (X, v.id)
+                    elif any(guarded_by_itself(y, v.id) for y in ys):
+                        why = "`%s` is `%s`, which is allocated only when it is not there yet (once, not once per item)" % (X, v.id)
+                else:
+                    why = "`%s = %s` is not a fresh allocation" % (X, norm(v)[:40])
+            run.obligation(rid, f.short, not why, key="recv:" + X,
+                           message="%s receives into `%s` and hands it to `%s`, but %s: all items received from one process are one "
+                                   "array, and every item but the last is overwritten by the next receive"
+                                   % (f.short, X, norm(handed[0].func), why),
+                           loc=f.loc(c), sample={"buffer": X, "handed_to": norm(handed[0].func)})
+    if n < 1:
+        raise AnalysisError("C20-H: no receive into a buffer that is handed on found in quantarhei.core.parallel")
 
 
 def rule_F(run, prog):
